@@ -304,6 +304,10 @@ func C11State(s *Snap, g *lifeGhost) []engine.Finding {
 				inflight = true
 			}
 		}
+		m := s.Metas[d]
+		if end := m.CreatedAt + m.Duration; !inflight && int64(end) <= s.H && containsS(s.ExpData[end], d) {
+			continue // its deletion is scheduled for the end-block of the block in progress
+		}
 		if !inflight {
 			out = append(out, fd("C11", "model-outlives-its-last-paid-shard", "", fmt.Sprintf("model %s exists at height %d with no paid shard and no order in flight", d, s.H)))
 		}
